@@ -4,6 +4,6 @@ p=$1; shift
 [ -d "$p" ] && p=$p/patch.diff; p=$(readlink -f "$p")
 cd /repo || exit 9
 if ! git diff --quiet; then echo "/repo has uncommitted changes"; exit 9; fi
-git apply "$p" || { echo "patch does not apply: $p"; exit 8; }
+git apply "$p" 2>/dev/null || patch -p1 -s -f --no-backup-if-mismatch -i "$p" >/dev/null || { git checkout -- .; echo "patch does not apply: $p"; exit 8; }
 for prop in "$@"; do (cd /verif && FCVERIF_NO_EVIDENCE=1 ./check $prop | grep -E "^(FAIL|VIOLATION|KNOWN|BUILD|C[0-9]+:)" | cut -c1-400); done
 git checkout -- .
